@@ -14,10 +14,10 @@ from harness.vclock import run_virtual, settle
 ID = "C10"
 COQ_DIRS = ["C10"]
 PROPERTY_FILE = "C10/Property.v"
-RUN_IMPORTS = "From TV Require Import C10.Model C10.Run."
-RUN_FN = "run_case"
-CHECK_FN = "check_case"
-INPUT_TYPE = "input"
+RUN_IMPORTS = "From TV Require Import C10.Model C10.Run C10.RunClient."
+RUN_FN = "run_case2"
+CHECK_FN = "check_case2"
+INPUT_TYPE = "input2"
 EXHAUSTIVE = {"quick": False, "thorough": True}
 
 FAMS = {4: "AF4", 6: "AF6", 9: "AF9"}
@@ -74,6 +74,8 @@ def run_impl(case):
     n = len(addrs)
     events = case["events"]
     has_ct = case["ct"]
+    if case.get("via") == "client":
+        has_ct = case["tk"] in ("number", "timedelta")
     # deadlines (relative to start): primary timer is tornado's own 0.3 s default
     first = {}
     for k, e in enumerate(events):
@@ -138,16 +140,70 @@ def run_impl(case):
                         x.close()
 
         addrinfo = [(FAMS[f], ("host", i)) for i, (f, _) in enumerate(addrs)]
-        try:
-            conn = tcpclient._Connector(addrinfo, connect)
-        except IndexError:
-            return G.Tag("IndexError")
         from tornado.ioloop import IOLoop
-        if has_ct:
-            fut = conn.start(connect_timeout=IOLoop.current().time() + ct_deadline)
+        via_client = case.get("via") == "client"
+        holder = {}
+        if not via_client:
+            try:
+                conn = tcpclient._Connector(addrinfo, connect)
+            except IndexError:
+                return G.Tag("IndexError")
+            if has_ct:
+                fut = conn.start(connect_timeout=IOLoop.current().time() + ct_deadline)
+            else:
+                fut = conn.start()
+            handles = (conn.timeout, conn.connect_timeout)
         else:
-            fut = conn.start()
-        handles = (conn.timeout, conn.connect_timeout)
+            # second entry point: the public TCPClient.connect(host, port, timeout=...) with a fake Resolver;
+            # only the stream factory is replaced, the internal _Connector is recorded (not altered)
+            import datetime
+            from tornado.netutil import Resolver
+
+            class ResolveFail(Exception):
+                pass
+
+            never = Future()
+
+            class FakeResolver(Resolver):
+                def initialize(self):
+                    pass
+
+                async def resolve(self, host, port, family=0):
+                    assert (host, port) == ("host", 80)
+                    if case["rk"] == "never":
+                        await never
+                    if case["rk"] == "fails":
+                        raise ResolveFail()
+                    return list(addrinfo)
+
+                def close(self):
+                    pass
+
+            class Rec(orig_connector):
+                def start(self, *a, **k):
+                    holder["conn"] = self
+                    f = orig_connector.start(self, *a, **k)
+                    holder["handles"] = (self.timeout, self.connect_timeout)
+                    return f
+
+            tcpclient._Connector = Rec
+            tcpclient.TCPClient._create_stream = (
+                lambda self, max_buffer_size, af, addr, source_ip=None, source_port=None: connect(af, addr))
+            tv = {"none": None, "number": ct_deadline, "timedelta": datetime.timedelta(seconds=ct_deadline),
+                  "bad": "soon"}[case["tk"]]
+            client = tcpclient.TCPClient(resolver=FakeResolver())
+            fut = asyncio.ensure_future(client.connect("host", 80, timeout=tv))
+            await settle(8)
+            if fut.done() and not fut.cancelled() and fut.exception() is not None and "conn" not in holder:
+                exc = fut.exception()
+                if isinstance(exc, IndexError):
+                    return G.Tag("IndexError")
+                if isinstance(exc, TypeError):
+                    return G.Tag("TypeError")
+                if isinstance(exc, ResolveFail):
+                    return G.Tag("ResolveError")
+            conn = holder.get("conn")
+            handles = holder.get("handles", (None, None))
 
         def armed(h):
             return bool(h is not None and not h.cancelled() and getattr(h, "_scheduled", False))
@@ -159,6 +215,12 @@ def run_impl(case):
                 return G.Tag("Cancelled")
             exc = fut.exception()
             if exc is None:
+                if via_client:
+                    stream = fut.result()
+                    idx = getattr(stream, "idx", None)
+                    if idx is None or streams.get(idx) is not stream:
+                        return G.Tag("WrongResult")
+                    return [G.Tag("Ok"), idx]
                 af, addr, stream = fut.result()
                 idx = stream.idx
                 if streams.get(idx) is not stream or addrinfo[idx] != (af, addr):
@@ -173,6 +235,9 @@ def run_impl(case):
             return [G.Tag("OtherException"), type(exc).__name__]
 
         def snapshot():
+            if conn is None:                 # still waiting for the resolver: no connector, no socket
+                assert not started and not streams
+                return fut_obs()
             return [fut_obs(), list(started),
                     [streams[i].close_calls if i in streams else 0 for i in range(n)],
                     conn.remaining, armed(handles[0]), armed(handles[1]),
@@ -180,6 +245,7 @@ def run_impl(case):
 
         await settle(3)
         out = [snapshot()]
+        nsettle = 8 if via_client else 3
         for e in events:
             if e[0] == "D":
                 f = futs.get(e[1])
@@ -192,8 +258,11 @@ def run_impl(case):
                 dt = t0 + t_after[e[0]] - loop.time()
                 if dt > 0:
                     await asyncio.sleep(dt)
-            await settle(3)
+            await settle(nsettle)
             out.append(snapshot())
+        if via_client and not fut.done():
+            fut.cancel()
+            await settle(3)
         # retrieve exceptions so that nothing is logged at GC time
         for f in list(futs.values()) + [fut]:
             if f.done() and not f.cancelled():
@@ -201,7 +270,11 @@ def run_impl(case):
         return out
 
     logging.getLogger("asyncio").setLevel(logging.CRITICAL)
-    res = run_virtual(scenario)
+    orig_connector, orig_create = tcpclient._Connector, tcpclient.TCPClient._create_stream
+    try:
+        res = run_virtual(scenario)
+    finally:
+        tcpclient._Connector, tcpclient.TCPClient._create_stream = orig_connector, orig_create
     if socket_leaks:
         return [G.Tag("SocketLeakInCreateStream"), socket_leaks, res]
     if loop_errors:
@@ -218,14 +291,20 @@ def g_event(e):
 
 def coq_input(case):
     addrs = G.glist(["(%s, %s)" % (G.gnat(f), OUTCOME[s]) for f, s in case["addrs"]], "addr")
-    return "((%s, %s), %s)" % (addrs, G.gbool(case["ct"]), G.glist([g_event(e) for e in case["events"]], "event"))
+    inner = "((%s, %s), %s)" % (addrs, G.gbool(case["ct"]), G.glist([g_event(e) for e in case["events"]], "event"))
+    if case.get("via") == "client":
+        entry = "(Client %s %s)" % ({"none": "TNone", "number": "TNumber", "timedelta": "TTimedelta", "bad": "TBad"}[case["tk"]],
+                                     {"now": "RNow", "never": "RNever", "fails": "RFails"}[case["rk"]])
+    else:
+        entry = "Direct"
+    return "(%s, %s)" % (entry, inner)
 
 
 def mk(addrs, ct, events):
     return {"addrs": [list(a) for a in addrs], "ct": bool(ct), "events": [list(e) for e in events]}
 
 
-def corpus_cases():
+def _corpus_direct():
     P, C = ["P"], ["C"]
     D = lambda i, ok: ["D", i, ok]
     four = [(4, None), (4, None), (6, None), (6, None)]
@@ -274,7 +353,7 @@ def events_universe(n):
     return ev
 
 
-def gen_cases(rng, tier):
+def _gen_direct(rng, tier):
     out = []
     # --- small-scope exhaustive part
     if tier == "thorough":
@@ -343,7 +422,78 @@ def gen_cases(rng, tier):
     return out
 
 
+def as_client(case, tk, rk="now"):
+    """the same schedule driven through TCPClient.connect(host, port, timeout=...)"""
+    c = dict(case, via="client", tk=tk, rk=rk)
+    c.pop("real", None)
+    c["ct"] = tk in ("number", "timedelta")      # the deadline is the connector's connect timer
+    return c
+
+
+TKS = ["number", "timedelta", "none"]
+
+
+def corpus_cases():
+    P, C = ["P"], ["C"]
+    D = lambda i, ok: ["D", i, ok]
+    base = _corpus_direct()
+    out = list(base)
+    four = [(4, None), (4, None), (6, None), (6, None)]
+    # seeded change C10_3 (overall timeout enforced by with_timeout around connector.start() instead of connect_timeout):
+    # the deadline fires with attempts pending -> they must be closed, nothing may start afterwards, a late winner is closed
+    out += [
+        as_client(mk(four, True, [C, D(0, True), P]), "number"),
+        as_client(mk(four, True, [P, C, D(0, False), D(2, True)]), "timedelta"),
+        as_client(mk(four, True, [C, D(0, False), D(1, True)]), "number"),
+        as_client(mk(four, False, [P, D(2, True), D(0, True)]), "none"),
+        as_client(mk([(4, None)], True, [C]), "timedelta", "never"),
+        as_client(mk([(4, None)], False, [C, P]), "none", "never"),
+        as_client(mk([(4, None)], True, [P, C, C]), "number", "never"),
+        as_client(mk([(4, None)], True, [P]), "number", "fails"),
+        as_client(mk([(4, None)], True, [P]), "bad", "now"),
+        as_client(mk([(4, None)], True, []), "bad", "never"),
+        as_client(mk([], True, []), "number"),
+    ]
+    out += [as_client(c, TKS[k % 3]) for k, c in enumerate(base) if not c.get("real") and c["addrs"]]
+    return out
+
+
+def gen_cases(rng, tier):
+    direct = _gen_direct(rng, tier)
+    out = list(direct)
+    step = 5 if tier == "quick" else 7
+    off = rng.randrange(step)
+    for k, c in enumerate(direct):
+        if k % step == off:
+            out.append(as_client(c, TKS[(k // step) % 3]))
+    # the resolver never answers / fails, bad timeout types
+    for k in range(40 if tier == "quick" else 300):
+        ev = [rng.choice([["P"], ["C"], ["C"], ["D", 0, rng.random() < 0.5]]) for _ in range(rng.randrange(5))]
+        tk = rng.choice(["number", "timedelta", "none", "bad"])
+        rk = rng.choice(["never", "never", "fails", "now"] if tk != "bad" else ["never", "fails", "now"])
+        if rk == "now" and tk != "bad":
+            rk = "never"
+        out.append(as_client(mk([(4, None), (6, None)][: rng.randrange(1, 3)], True, ev), tk, rk))
+    return out
+
+
 def py_check(case, o):
+    if case.get("via") == "client" and (case["rk"] != "now" or case["tk"] == "bad"):
+        if case["tk"] == "bad":
+            return o == G.Tag("TypeError")
+        if case["rk"] == "fails":
+            return o == G.Tag("ResolveError")
+        # resolver never answers: exactly-once, Timeout only with a deadline and only after a C event
+        if not isinstance(o, list) or len(o) != len(case["events"]) + 1 or o[0] != G.Tag("Pending"):
+            return False
+        dl = case["tk"] in ("number", "timedelta")
+        for k in range(1, len(o)):
+            want = o[k - 1]
+            if o[k - 1] == G.Tag("Pending") and case["events"][k - 1][0] == "C" and dl:
+                want = G.Tag("Timeout")
+            if o[k] != want:
+                return False
+        return True
     """Independent oracle: exactly-once, winner not closed, losers closed, nothing started after resolution."""
     if not case["addrs"]:
         return o == G.Tag("IndexError")
@@ -390,6 +540,7 @@ def nontrivial(case, o):
 
 
 def classify(case, o):
+    yield "entry=" + ("TCPClient.connect/%s/%s" % (case["tk"], case["rk"]) if case.get("via") == "client" else "_Connector")
     yield "n=%d" % len(case["addrs"])
     yield "families=%d" % len(set(f for f, _ in case["addrs"]))
     yield "sync=" + ("yes" if any(s is not None for _, s in case["addrs"]) else "no")
@@ -417,7 +568,7 @@ def shrink(case):
     ev = case["events"]
     for k in range(len(ev)):
         yield dict(case, events=ev[:k] + ev[k + 1:])
-    if case["ct"]:
+    if case["ct"] and case.get("via") != "client":
         yield dict(case, ct=False)
     ad = case["addrs"]
     if len(ad) > 1:
